@@ -112,15 +112,15 @@ def sloChain : Chain := {
 def aqChain : Chain := {
   steps := [
     { kind := "WithLogicStep", calls := ["ioutil.ReadAll", "string"], fail := "http:http.StatusInternalServerError", hash := "fab5e09eba8e40dc" },
-    { kind := "WithLogicStep", calls := ["xml.DecodeAttributeQuery"], fail := "http:http.StatusInternalServerError", hash := "ecb9c173121693ba" },
-    { kind := "WithLogicStep", calls := ["p.GetServiceProvider"], fail := "http:http.StatusInternalServerError", hash := "eb2a1515f3d90741" },
+    { kind := "WithLogicStep", calls := ["xml.DecodeAttributeQuery"], fail := "http:http.StatusInternalServerError", hash := "964b4551df96acd1" },
+    { kind := "WithLogicStep", calls := ["p.GetServiceProvider"], fail := "http:http.StatusInternalServerError", hash := "207663917e909bc0" },
     { kind := "WithConditionalLogicStep", calls := ["certificateCheckNecessary", "checkCertificate"], fail := "http:http.StatusInternalServerError", hash := "a4ef47b05e81e2c9" },
-    { kind := "WithConditionalLogicStep", calls := ["signaturePostProvided", "verifyPostSignature"], fail := "http:http.StatusInternalServerError", hash := "ba6b83f18bfa00ad" },
+    { kind := "WithConditionalLogicStep", calls := ["signaturePostProvided", "sp.ValidateAttributeQuerySignature"], fail := "http:http.StatusInternalServerError", hash := "ad6ba0ee25cb797f" },
     { kind := "WithLogicStep", calls := ["verifyRequestDestinationOfAttrQuery"], fail := "http:http.StatusInternalServerError", hash := "31501dfdb99f8aaf" },
-    { kind := "WithLogicStep", calls := ["p.storage.SetUserinfoWithLoginName", "make", "append", "makeAttributeQueryResponse", "p.GetEntityID", "sp.GetEntityID"], fail := "http:http.StatusInternalServerError", hash := "e37661e5f741708e" },
+    { kind := "WithLogicStep", calls := ["p.storage.SetUserinfoWithLoginName", "make", "append", "makeAttributeQueryResponse", "p.GetEntityID", "sp.GetEntityID"], fail := "http:http.StatusInternalServerError", hash := "011e4c0781c91026" },
     { kind := "WithLogicStep", calls := ["getResponseCert", "createPostSignature"], fail := "http:http.StatusInternalServerError", hash := "6408089480a02166" }
   ],
-  pre := "285fc3858974a4a2",
+  pre := "5beaeee6241db7b2",
   post := "8108d4a3ce746038" }
 
 def consts : List (String × String) := [
